@@ -108,6 +108,14 @@ macro_rules! impl_set_column_match_arms {
       match $arg {
         (Value::Table(tbl), source, Value::Id(k)) => {
           let tbl_brrw = tbl.borrow();
+          // A column holds one element per row: a source of another length cannot
+          // be assigned (the kernels would write until they ran off the column).
+          let source_shape = source.shape();
+          if tbl_brrw.get(&k).is_some() && source_shape.iter().product::<usize>() != tbl_brrw.rows() {
+            return Err(MechError::new(
+              DimensionMismatch { dims: vec![tbl_brrw.rows(), source_shape.iter().product::<usize>()] }, None).with_compiler_loc()
+            );
+          }
           match (tbl_brrw.get(&k), tbl_brrw.rows(), source) {
             $(
               #[cfg(all(feature = $type_feature, feature = "matrix1"))]
